@@ -46,6 +46,36 @@ def _clear_dask_caches():
         raise RuntimeError(f"cannot clear dask-expr caches: {e}") from e
 
 
+class _SerialScan:
+    """Proxy for the pyarrow dataset behind a ParquetDataset: a multi-file read opens its
+    fragments one after the other instead of four at a time on two threads.  Arrow's fragment
+    read-ahead runs the calling thread and its I/O thread side by side - a scheduler inside a
+    dependency that the simulator does not decide - so the order of storage requests, and
+    which of them are still issued after a failure, would differ from run to run."""
+
+    def __init__(self, d):
+        self._d = d
+
+    def __getattr__(self, name):
+        return getattr(self._d, name)
+
+    def to_table(self, **kw):
+        kw["use_threads"] = False
+        kw["fragment_readahead"] = 1
+        return self._d.to_table(**kw)
+
+
+def _serial_parquet_read(real_read):
+    def read(self, *a, **k):
+        real = self._dataset
+        self._dataset = _SerialScan(real)
+        try:
+            return real_read(self, *a, **k)
+        finally:
+            self._dataset = real
+    return read
+
+
 def _sp_module_state():
     """Process-global mutable state of the code under test: module-level dict / list / set
     objects and functools caches of every loaded spatialpandas module.  One run is one fresh
@@ -116,6 +146,9 @@ def installed(sim, store=None, scheduler=True):
                 sim.count(tag)
         return real_should_reject(self, attempt)
 
+    import pyarrow.parquet as pq
+    real_pq_read = pq.ParquetDataset.read
+    pq.ParquetDataset.read = _serial_parquet_read(real_pq_read)
     retrying.Retrying.should_reject = observing_should_reject
     retrying.time = fake
     _uuid.uuid4 = seeded_uuid4
@@ -130,6 +163,7 @@ def installed(sim, store=None, scheduler=True):
         _restore_sp_module_state(sp_state)
         retrying.time = real_time_mod
         retrying.Retrying.should_reject = real_should_reject
+        pq.ParquetDataset.read = real_pq_read
         _uuid.uuid4 = real_uuid4
         simfs.SimFS.CURRENT = prev_store
         gc.collect()
